@@ -7,6 +7,7 @@ from ..vm import Prog, expect_ok, lit_repr
 from . import maps, seqs
 
 ID = "C11"
+ALT_BUILD = True          # a quarter of the workers run the gcc -O0 build (core.py)
 LEVEL = "exploration"
 BUDGET = {"quick": 2500, "thorough": 750000}
 RULE = ("case = an iterable expression: base (Array/List/Tuple of Int length 0..12 reached through one of 7 short mutation "
@@ -823,7 +824,42 @@ def extra_phase(ctx, tier, stats, sample_fn):
                     stats.add(case, Result(None, True, ["small-scope-map"]), sample_fn)
                 else:
                     stats.evals += 1
-    return {"fails": fails, "extra": {"small_scope_slices": n, "small_scope_ranges": nr, "small_scope_maps": nm, "small_scope_exhaustive": True}}
+    # every Zip of two inputs (and enumerate of one) drawn from a small set of sources of different lengths, with and
+    # without Len / Get, cursors kept inside the object (Range, Slice) or not: forward, backward, len, get
+    def rng(n):
+        return {"k": "range", "nargs": 1, "a": 0, "b": n, "c": 1, "alloc": "heap", "off": 0}
+
+    def arr(n, k="arr"):
+        return {"k": k, "items": list(range(20, 20 + n)), "via": "direct"}
+    srcs = [arr(0), arr(2), arr(5, "lst"), arr(3, "tup"), rng(0), rng(3), rng(10),
+            {"k": "filter", "of": rng(10), "fn": "even", "alloc": "heap"},
+            {"k": "filter", "of": rng(4), "fn": "none", "alloc": "heap"},
+            {"k": "filter", "of": arr(5), "fn": "odd", "alloc": "stack"},
+            {"k": "filter", "of": {"k": "slice", "of": arr(5), "args": [1], "alloc": "heap"}, "fn": "all", "alloc": "heap"},
+            {"k": "map", "of": rng(4), "fn": "dbl", "alloc": "heap"},
+            {"k": "slice", "of": rng(7), "args": [1, 6, 2], "alloc": "heap"},
+            {"k": "slice", "of": arr(5), "args": ["_", "_", -1], "alloc": "heap"}]
+    nz = 0
+    import copy as _copy
+    for i, a_ in enumerate(srcs):
+        for j, b_ in enumerate(srcs):
+            e = {"k": "zip", "of": [_copy.deepcopy(a_), _copy.deepcopy(b_)], "alloc": "heap" if (i + j) % 2 else "stack"}
+            case = {"fam": "view", "e": e, "partial": None}
+            try:
+                res = _orig_run_case(ctx, case)
+            except Unsupported:
+                continue
+            nz += 1
+            if "unsupported" in " ".join(res.events):
+                continue
+            if res.fail:
+                fails.append((case, res.fail))
+            if nz % 12 == 0:
+                stats.add(case, Result(None, True, ["small-scope-zip"]), sample_fn)
+            else:
+                stats.evals += 1
+    return {"fails": fails, "extra": {"small_scope_slices": n, "small_scope_ranges": nr, "small_scope_maps": nm, "small_scope_zips": nz,
+                                      "small_scope_exhaustive": True}}
 
 
 # Known finding: a Tuple holding the same pointer twice never terminates (cursor found by pointer identity).
